@@ -249,6 +249,9 @@ func H_C16_handle_blockpart_message() {
 	if cs.ProposalBlockParts != nil && cs.ProposalBlockParts.Count() == before.partsCount {
 		verifAssert(cs.ProposalBlock == before.block, "no-part-added-no-block")
 	}
+	// a completed block whose recover counter differs from the node's is dropped (C02: the
+	// validator-set hash check is skipped for recover blocks)
+	verifAssert(cs.ProposalBlock == nil || cs.ProposalBlock.Recover == cs.recover, "block-with-foreign-recover-state-is-dropped")
 }
 
 //verif:opt unwind=12 budget_s=900 split=32
